@@ -72,12 +72,13 @@ def nodes(obj, _seen=None):
 
 
 def true_variables(obj, _memo=None):
-    """Variable names reachable below obj, from the leaves (not from _variable_names)."""
+    """Variable names reachable below obj, from the leaves (not from _variable_names).
+    The memo keeps a reference to every object it has seen, so ids cannot be recycled under it."""
     if _memo is None:
         _memo = {}
     hit = _memo.get(id(obj))
-    if hit is not None:
-        return hit
+    if hit is not None and hit[0] is obj:
+        return hit[1]
     name = _classes().get(obj.__class__)
     d = obj.__dict__
     if name == "Variable":
@@ -91,7 +92,7 @@ def true_variables(obj, _memo=None):
         for c in d.get("_inners", ()) or ():
             acc |= true_variables(c, _memo)
         out = frozenset(acc)
-    _memo[id(obj)] = out
+    _memo[id(obj)] = (obj, out)
     return out
 
 
